@@ -92,7 +92,9 @@ def main():
     root = os.path.dirname(list(spec.submodule_search_locations)[0])
     with open(os.path.join(root, REL)) as f:
         tree = ast.parse(f.read())
-    out = [dumplib.HEADER % "dump_c15.py", "(* source: %s *)" % REL]
+    out = [dumplib.HEADER.replace("from the live objects of the current /repo",
+                                   "from the source text (ast) of the current /repo") % "dump_c15.py",
+           "(* source: %s *)" % REL]
 
     # ---------------------------------------------------------------- module constants
     consts = {}
